@@ -18,7 +18,7 @@ RULE = ('sorter cases: sequences of <=10 add/remove calls on a TopologicalSorter
         'predicate list, tweens, derivers) over <=8 names + sentinels + absent names, constraints None/name/sentinel/'
         'list of alternatives, item names incl. near-misses of the reserved names (DOMAIN, PREVIEW, ..SUBDOMAIN.., ..INGRESSION..), sorted() observed after every call; all insertion orders of small declaration sets; '
         'configurator cases: add_tween HISTORIES (adds/re-adds interleaved with implicit() and requests through freshly '
-        'made apps, with/without pyramid.tweens, autocommit / commit after each add / ONE commit per look with adds inside config.include and top-level overrides; names also in package-relative and pkg:attr spelling; directive calls positional, with None hints omitted, deriver name omitted), add_view_deriver, and '
+        'made apps, with/without pyramid.tweens, autocommit / commit after each add / ONE commit per look with adds inside config.include and top-level overrides; names also in package-relative and pkg:attr spelling, the stock excview tween re-positioned, user derivers named like the fixed outer wrappers; directive calls positional, with None hints omitted, deriver name omitted), add_view_deriver, and '
         'add_view/route/subscriber_predicate with weighs_more_than/weighs_less_than hints, with a real request through '
         'instrumented tweens/derivers/predicates, or PredicateList.make called directly with single / predvalseq / not_ values; re-registrations hand over the VERY SAME object in part of the cases and '
         'a third of all cases pass every name/hint as an equal-but-not-identical str object. non-trivial = some observed step is an error '
@@ -265,8 +265,11 @@ def gen_tweens(rng):
             if r > 0 and added and rng.random() < 0.8:
                 name = rng.choice(added)                       # re-add: the number of names does not change
             else:
-                name = rng.choice(live) if rng.random() < 0.95 else rng.choice(['MAIN', 'INGRESS'])
+                q = rng.random()
+                name = rng.choice(live) if q < 0.9 else (EXCVIEW if q < 0.95 else rng.choice(['MAIN', 'INGRESS']))
             fid = _tw_id(name) if rng.random() < 0.6 else 10 * (r + 1) + _tw_id(name)
+            if name == EXCVIEW:
+                fid = 0                                        # the stock tween re-positioned: its real factory
             events.append(['add', name, fid, hint(True), hint(False)])
             if name in TW and name not in added:
                 added.append(name)
@@ -402,6 +405,10 @@ def gen_preds(rng):
 DV_DEFAULT = ['secured_view', 'csrf_view', 'owrapped_view', 'http_cached_view', 'decorated_view', 'rendered_view',
               'mapped_view']
 DV_USER = ['d0', 'd1', 'd2', 'd3', 'PREVIEW_d4', 'INGRESSION_d5']   # the last two contain VIEW / INGRESS
+# names the framework itself uses for FIXED pipeline members but does not reserve: a user deriver may carry them (it is
+# then one more item of the sorter; the fixed wrappers of that name stay where they are)
+DV_OUTER = ['attr_wrapped_view', 'predicated_view']
+DV_NAMES = DV_USER + DV_OUTER
 
 
 def gen_derivers(rng):
@@ -426,7 +433,7 @@ def gen_derivers(rng):
         return _with_copies(rng, {'k': 'derivers', 'adds': _planned_derivers(rng, max(1, k), stock, listify)})
     for _ in range(k):
         r = rng.random()
-        name = rng.choice(DV_USER) if r < 0.78 else (rng.choice(DV_DEFAULT) if r < 0.96 else rng.choice(['INGRESS', 'VIEW']))
+        name = rng.choice(DV_USER if r < 0.66 else DV_NAMES) if r < 0.78 else (rng.choice(DV_DEFAULT) if r < 0.96 else rng.choice(['INGRESS', 'VIEW']))
         if adds and rng.random() < 0.2:
             name = rng.choice(adds)[0]                     # re-register an earlier name (re-positioning a deriver)
 
@@ -469,7 +476,7 @@ def _planned_derivers(rng, k, stock, listify):
     next to a present one, forward references, re-registrations that MOVE a deriver, stock derivers re-added with their
     stock hints; one registration in five is left to chance.  Most of these cases end in a sorted pipeline, so that the
     order, mapped_view innermost and the enter/exit log are what is compared."""
-    users = rng.sample(DV_USER, min(len(DV_USER), rng.choice([1, 2, 2, 3, 4])))
+    users = rng.sample(DV_NAMES if rng.random() < 0.35 else DV_USER, min(len(DV_USER), rng.choice([1, 2, 2, 3, 4])))
     plan = DV_PLAN[:-1]
     for nm in users:
         plan.insert(rng.randrange(len(plan) + 1), nm)
@@ -584,8 +591,9 @@ def valid(case):
             seen = set()
             for e in evs:
                 if e[0] == 'add':
-                    if len(e) not in ((5, 6) if batch else (5,)) or e[1] not in TW + ['MAIN', 'INGRESS'] \
-                            or not isinstance(e[2], int) or e[2] < 1 or not (_hint_ok(e[3]) and _hint_ok(e[4])):
+                    if len(e) not in ((5, 6) if batch else (5,)) or e[1] not in TW + ['MAIN', 'INGRESS', EXCVIEW] \
+                            or not isinstance(e[2], int) or e[2] < (0 if e[1] == EXCVIEW else 1) \
+                            or (e[1] == EXCVIEW and e[2] != 0) or not (_hint_ok(e[3]) and _hint_ok(e[4])):
                         return False
                     if batch:
                         # one statement per name and include level between two commits (else a conflict), and no call
@@ -625,7 +633,7 @@ def valid(case):
             return bool(case['adds'])
         if k == 'derivers':
             for a in case['adds']:
-                if len(a) not in (3, 4) or a[0] not in DV_USER + DV_DEFAULT + ['INGRESS', 'VIEW'] \
+                if len(a) not in (3, 4) or a[0] not in DV_NAMES + DV_DEFAULT + ['INGRESS', 'VIEW'] \
                         or not (_hint_ok(a[1]) and _hint_ok(a[2])) or (len(a) == 4 and a[3] != 1):
                     return False
             return True
@@ -1281,6 +1289,8 @@ def kinds(case, obs):
     if case.get('style'):
         out.append('%s-call-style-%s' % (k, {1: 'positional', 2: 'none-hints-omitted', 3: 'name-omitted'}.get(case['style'])))
     if k == 'tweens':
+        if any(e[0] == 'add' and e[1] == EXCVIEW for e in _tw_events(case)):
+            out.append('tweens-stock-excview-repositioned')
         al = [e[1] for e in _tw_events(case) if e[0] == 'add' and e[1] in _twmod.ALIASES]
         if al:
             out.append('tweens-name-spelling-relative-or-colon')
@@ -1354,6 +1364,8 @@ def kinds(case, obs):
                 out.append('derivers-stock-replaced')
             if any(a[0] == 'mapped_view' for a in case['adds']):
                 out.append('derivers-mapped_view-replaced')
+            if any(a[0] in DV_OUTER for a in case['adds']):
+                out.append('derivers-user-deriver-named-like-a-fixed-outer-wrapper')
             if len(set(_add_ids(case))) < len(case['adds']):
                 out.append('derivers-readd-same-object')
         for c in codes:
